@@ -476,6 +476,30 @@ func c05ConfigEnum(thorough bool) mc.Enum {
 			}})
 		}
 	}
+	// pay-once files paid for centuries ahead: the gauge's lifetime lies beyond what a time.Duration can hold (about 292 years)
+	for _, years := range []int64{100, 292, 293, 400, 5000, 100000} {
+		years := years
+		e.Cases = append(e.Cases, mc.Case{Desc: fmt.Sprintf("far-expiry|%d years", years), Run: func(env world.Env) mc.CaseResult {
+			w := env.W()
+			u := w.A("U").Bech
+			cr := mc.CaseResult{Class: "post-refused"}
+			h := env.Ctx().BlockHeight()
+			msg := storagetypes.NewMsgPostFile(u, files[0].merkle, 1000, 0, 0, 3, "{}")
+			msg.Expires = h + years*365*14400
+			if !env.Deliver(msg).OK() {
+				return cr
+			}
+			cr.Class, cr.Nontrivial = "no-panic", true
+			for b := 0; b < 8; b++ {
+				if bp := env.NextBlock(day); bp != nil {
+					cr.Class = "panic"
+					cr.Viols = append(cr.Viols, viol("block-processing-never-panics", panicSig(bp), "pay-once file paid for %d years: %s of height %d panicked: %s", years, bp.Phase, bp.Height, bp.Value))
+					break
+				}
+			}
+			return cr
+		}})
+	}
 	// a prover struck off by a passed report (or refreshed by a passed attestation) while its file is young or old, then
 	// reward blocks
 	for _, kind := range []string{"report", "attest", "both"} {
@@ -564,7 +588,7 @@ func init() {
 	prev := Props["C05"].Run
 	Props["C05"] = Prop{Level: "model_checking", Run: func(r *mc.Run, tier string) {
 		prev(r, tier)
-		r.Rules = append(r.Rules, "plus an exhaustive enumeration of reward-block configurations: up to 3 (thorough 4) files, each with FileSize in {1,1000,2^62,2^63-1}, one or two provers, pay-once or plan-paid, posted and proven through real messages, followed by eight one-day blocks (past the first removal of lapsed provers); 13 provider addresses that the message accepts although they are no ordinary URL (no scheme, no host, trailing dot, IPv6, opaque), set by SetProviderIP or a fresh InitProvider, with that provider lapsing on a file and named on forms; a prover struck off by a passed report / refreshed by a passed attestation 0-3 blocks after it joined; and 2-4 identical purchases in one block followed by eight one-day blocks")
+		r.Rules = append(r.Rules, "plus an exhaustive enumeration of reward-block configurations: up to 3 (thorough 4) files, each with FileSize in {1,1000,2^62,2^63-1}, one or two provers, pay-once or plan-paid, posted and proven through real messages, followed by eight one-day blocks (past the first removal of lapsed provers); 13 provider addresses that the message accepts although they are no ordinary URL (no scheme, no host, trailing dot, IPv6, opaque), set by SetProviderIP or a fresh InitProvider, with that provider lapsing on a file and named on forms; a prover struck off by a passed report / refreshed by a passed attestation 0-3 blocks after it joined; pay-once files paid for 100 to 100000 years ahead; and 2-4 identical purchases in one block followed by eight one-day blocks")
 		dl := time.Now().Add(40 * time.Second)
 		if tier == "thorough" {
 			dl = time.Now().Add(15 * time.Minute)
